@@ -61,6 +61,13 @@ def check_impl(c, out, ctx, prof):
             return 'plan names the disabled mode %s' % MODE_BY_INDEX[mi]
     if status != 'ok':
         return None
+    # how many of the encodable cases have a plan inside a class for which the data-layer round trip is a theorem for every input
+    # (C01_ab_plan_roundtrip, C01_ax_plan_roundtrip, C01_ac_plan_roundtrip: beside ASCII only Base256, only X12, only C40 or only Text)
+    if prof == 'debug':
+        used = {MODE_BY_INDEX[mi] for (a, mi), (b, _) in zip(plan, plan[1:]) if a > b and mi != 0}
+        ctx.stats['encodable_cases_with_plan'] = ctx.stats.get('encodable_cases_with_plan', 0) + 1
+        if len(used) <= 1 and not (used & {'Edifact'}):
+            ctx.stats['plans_inside_a_proved_round_trip_class'] = ctx.stats.get('plans_inside_a_proved_round_trip_class', 0) + 1
     # latches: non-ASCII modes to which the plan assigns at least one character
     assigned = []
     for (a, mi), (b, _) in zip(plan, plan[1:]):
